@@ -723,6 +723,11 @@ class SingleListGrader(ItemGrader):
 
     def check_response(self, answer, student_input, **kwargs):
         """Check student_input against a given answer list"""
+        # Pass our debuglog to the subgrader, so that it can use it if it has debug=True
+        # (when nested inside another grader, we were handed that grader's log ourselves)
+        if hasattr(self, 'debuglog'):
+            self.config['subgrader'].debuglog = self.debuglog
+
         # Unpack the given answer
         answers = answer['expect']  # The list of answers
         msg = answer['msg']
